@@ -59,5 +59,31 @@ fn main() {
         n += 1;
     }
     if n < 8 { eprintln!("only {n} fixtures were accepted by the decoder"); std::process::exit(2); }
-    println!("checked {n} native scripts ({skipped} encodings not accepted by the decoder): phase 2 identifies each by the hash of its wire bytes");
+    // datums: the general constructor form (tag 102) in its definite and indefinite framing — whatever the decoder accepts, the raw bytes
+    // kept for the identity hash must be the whole input, and a wrapper that is not a 2-element array must be rejected
+    let datums: Vec<(&str, Vec<u8>, bool)> = vec![
+        ("Constr 102 [0, []] definite", vec![0xd8, 0x66, 0x82, 0x00, 0x80], true),
+        ("Constr 102 [0, []] with an indefinite-length wrapper", vec![0xd8, 0x66, 0x9f, 0x00, 0x80, 0xff], true),
+        ("Constr 102 [7, [1, 2]] with an indefinite-length wrapper and field list", vec![0xd8, 0x66, 0x9f, 0x07, 0x9f, 0x01, 0x02, 0xff, 0xff], true),
+        ("Constr 121 [] ", vec![0xd8, 0x79, 0x80], true),
+        ("Constr 102 with a 3-element wrapper", vec![0xd8, 0x66, 0x83, 0x00, 0x80, 0x00], false),
+        ("Constr 102 with a 1-element wrapper", vec![0xd8, 0x66, 0x81, 0x00], false),
+    ];
+    for (name, bytes, well_formed) in &datums {
+        let r = minicbor::decode::<KeepRaw<PlutusData>>(bytes);
+        match (r, well_formed) {
+            (Ok(k), true) => {
+                let wire: Hash<32> = Hasher::<256>::hash(bytes);
+                if k.raw_cbor() != &bytes[..] || k.original_hash() != wire {
+                    println!("VIOLATED: datum {name} ({}): the bytes kept for the datum hash are {} — hash {} instead of {}", hex(bytes), hex(k.raw_cbor()), k.original_hash(), wire);
+                    std::process::exit(1);
+                }
+            }
+            (Err(_), true) => { /* a stricter decoder is within the property: nothing is reported for this input */ }
+            (Ok(k), false) => { println!("VIOLATED: datum {name} ({}) is accepted (as {:?}) although its wrapper is not a 2-element array", hex(bytes), *k); std::process::exit(1); }
+            (Err(_), false) => {}
+        }
+        n += 1;
+    }
+    println!("checked {n} native scripts and datums ({skipped} encodings not accepted by the decoder): each is identified by the hash of its wire bytes");
 }
